@@ -245,6 +245,12 @@ func vfFieldLen(x any, path string) int {
 	return -1
 }
 
+// vfSliceLenAny / vfSliceSwapAny: length of, and element swap in, a slice passed as any.
+func vfSliceLenAny(x any) int { return reflect.ValueOf(x).Len() }
+func vfSliceSwapAny(x any, i, j int) {
+	reflect.Swapper(x)(i, j)
+}
+
 // vfHeapFieldLen (engine only): sum of len(field) over every allocated struct of the named type;
 // -1 when there is none (natively always -1: callers skip the assertion).
 func vfHeapFieldLen(typeName, path string) int { return -1 }
